@@ -23,9 +23,14 @@ theorem odt_reader_elements (content : Node) (styles : Option Node) :
 
 /-- **odt_list_style_carried**. Inside the text body a `text:list` that has a style name sets
 the style its items are written in; a list without one keeps the style of the list before it
-(the reader's `currentListStyle`). -/
+(the reader's `currentListStyle`).
+RESTATED: for a list that is decoded to its end (`hdec`: no paragraph of its items nests
+`text:span` / `text:a` deeper than `maxInlineDepth`) while the loop is still reading (`hd`).
+A list the decoder gives up in sets the style all the same and contributes no item
+(`odt_list_gives_up`). -/
 theorem odt_list_style_carried (defs : List StyleDef) (tag : Str) (attrs : List (Str × Str)) (kids : List Node) (w : WalkX)
-    (hb : w.inBody = true) (ht : tag ≠ sOfficeText) (hl : localName tag = sList) :
+    (hb : w.inBody = true) (hd : w.done = false) (ht : tag ≠ sOfficeText) (hl : localName tag = sList)
+    (hdec : (residualList .list kids).isNone = true) :
     walkNodeX defs (.elem tag attrs kids) w =
       { w with listStyle := listStyleAfter attrs w.listStyle,
                acc := w.acc ++ (listElems (.elem tag attrs kids)).map fun e => ⟨e, listStyleAfter attrs w.listStyle, 0⟩ } := by
@@ -33,10 +38,30 @@ theorem odt_list_style_carried (defs : List StyleDef) (tag : Str) (attrs : List 
     cases h : tag == sOfficeText
     · rfl
     · exact absurd (by simpa using h) ht
-  simp only [walkNodeX, hne, hb, hl, Bool.false_eq_true, if_false, Bool.not_true]
+  simp only [walkNodeX, hne, hb, hd, hl, Bool.false_eq_true, if_false, Bool.not_true]
   have h1 : (sList == sP) = false := by decide
   have h2 : (sList == sH) = false := by decide
-  simp [h1, h2]
+  simp only [h1, h2, Bool.false_eq_true, if_false, BEq.rfl, if_true]
+  rw [scanX_none defs .list kids _ hdec]
+
+/-- a list the decoder gives up in: the style is set, no item is recorded, the walk reads on to
+the end of the paragraph it happened in and stops there -/
+theorem odt_list_gives_up (defs : List StyleDef) (tag : Str) (attrs : List (Str × Str)) (kids : List Node) (w w' : WalkX)
+    (hb : w.inBody = true) (hd : w.done = false) (ht : tag ≠ sOfficeText) (hl : localName tag = sList)
+    (hs : scanListX defs .list kids { w with listStyle := listStyleAfter attrs w.listStyle } = some w') :
+    walkNodeX defs (.elem tag attrs kids) w = { w' with done := true } := by
+  have hne : (tag == sOfficeText) = false := by
+    cases h : tag == sOfficeText
+    · rfl
+    · exact absurd (by simpa using h) ht
+  obtain ⟨ib, dn, ls, acc⟩ := w
+  simp only at hb hd hs
+  subst hb; subst hd
+  simp only [walkNodeX, hne, hl, Bool.false_eq_true, if_false, Bool.not_true]
+  have h1 : (sList == sP) = false := by decide
+  have h2 : (sList == sH) = false := by decide
+  simp only [h1, h2, Bool.false_eq_true, if_false, BEq.rfl, if_true]
+  rw [hs]
 
 example : listStyleAfter [([116, 101, 120, 116, 58, 115, 116, 121, 108, 101, 45, 110, 97, 109, 101], [76, 49])] [76, 50] = [76, 49]
     ∧ listStyleAfter [] [76, 50] = [76, 50] := by decide
@@ -244,10 +269,17 @@ children of `office:text` stand for, in source order (`elemsOfList`: paragraphs,
 the items of lists with their nesting level, tables; wrappers in place); `Text()` shows their
 texts in that order, so does the Markdown buffer, of which `Markdown()` cuts only newlines at
 the ends; the page of `Document()`, lists taken apart, is these elements in that order with
-their heading levels, list levels and table grids. -/
+their heading levels, list levels and table grids.
+RESTATED (was: for every such tree): with `hdec` - every body element is decoded to its end,
+i.e. no paragraph of a body element nests `text:span` / `text:a` deeper than `maxInlineDepth`
+= 10000 (`C16Bounds.odt_decodes_iff_depth`). A document beyond that bound is NOT presented in
+full: `C16Bounds.odt_truncated` proves that the reader then holds the elements before the
+paragraph it gave up in, what stands behind the refused tag inside that paragraph, and nothing
+of what follows - without any error. -/
 theorem odt_end_to_end (docTag bodyTag : Str) (da ba ta : List (Str × Str)) (pre kids post : List Node) (styles : Option Node)
     (hdoc : docTag ≠ sOfficeText) (hbody : bodyTag ≠ sOfficeText)
-    (hpre : noTextList pre = true) (hpost : noTextList post = true) (hk : noTextList kids = true) :
+    (hpre : noTextList pre = true) (hpost : noTextList post = true) (hk : noTextList kids = true)
+    (hdec : decodesList kids = true) :
     let content : Node := .elem docTag da (pre ++ [.elem bodyTag ba [.elem sOfficeText ta kids]] ++ post)
     let rd := openReader content styles
     let els := elemsOfList (allStyles content styles) kids
@@ -259,7 +291,7 @@ theorem odt_end_to_end (docTag bodyTag : Str) (da ba ta : List (Str × Str)) (pr
   intro content rd els
   have hels : rd.elements.map (·.elem) = els := by
     rw [odt_reader_elements]
-    exact C16.odt_elements_interleave docTag bodyTag da ba ta pre kids post styles hdoc hbody hpre hpost hk
+    exact C16.odt_elements_interleave docTag bodyTag da ba ta pre kids post styles hdoc hbody hpre hpost hk hdec
   refine ⟨hels, ?_, ?_, odt_markdown_trim rd {} {}, odt_document_flatten rd⟩
   · have := odt_text_in_order rd {}
     have hshown : (rd.elements.map fun e => textTexts rd {} e.elem) = els.map shownText := by
